@@ -297,4 +297,26 @@ func init() {
 	}
 }
 
+func init() {
+	registry["C10"] = func(tier string) []*Job {
+		var js []*Job
+		cfgs := []seqCfg{{"be_writing", 2, 0, 0, 0}, {"b", 0, 0, 0, 0}}
+		reqlen := 3
+		if tier == "thorough" {
+			cfgs = append(cfgs, seqCfg{"be_accessing", 3, 0, 0, 0}, seqCfg{"bse_writing", 2, 0, 1, 10}, seqCfg{"ber", 1, 2, 0, 0})
+			reqlen = 4
+		}
+		for _, c := range cfgs {
+			j := mk("c10.bulk."+c.name, rootPkg, "ZZ_C10_Bulk", with(cfgParams(c.exp, c.ref, c.bound, c.max, 1, 0), "reqlen", reqlen),
+				func(b *Bounds) { b.Unwind = 12; b.MaxPaths = 600000; b.MaxWallS = 1500; b.MapOrders = 2 })
+			js = append(js, j)
+			j = mk("c10.single."+c.name, rootPkg, "ZZ_C10_Single", cfgParams(c.exp, c.ref, c.bound, c.max, 1, 0), func(b *Bounds) { b.Unwind = 12 })
+			js = append(js, j)
+		}
+		j := mk("c10.canary", rootPkg, "ZZ_C10_Bulk", with(cfgParams(2, 0, 0, 0, 1, 0), "reqlen", 2, "canary", 1), func(b *Bounds) { b.Unwind = 12 })
+		j.Canary = "c10.canary"
+		return append(js, j)
+	}
+}
+
 func sprintf(f string, a ...interface{}) string { return fmt.Sprintf(f, a...) }
